@@ -152,7 +152,7 @@ type c18Op struct {
 	Name string
 	// BadSig: the request is signed with a wrong secret (both sides must refuse it and change nothing)
 	BadSig bool
-	Req  func(st map[string]string) *gw.Req
+	Req    func(st map[string]string) *gw.Req
 	// Post extracts state (upload id, part etag) from the response
 	Post func(st map[string]string, resp *gw.Resp)
 }
